@@ -244,6 +244,165 @@ u_cfg(uint64_t idx, void *arg)
                             "and wrapping part accesses, every single-octet alteration");
 }
 
+/* data sizes beyond 255 and 65535 octets: counters, chunk arithmetic and addresses in the checksum loop */
+static unsigned char big_model[70100], big_tmp[70100];
+
+static void
+big_check(PersistentStorage *st, int ck, size_t size, const char *key, const char *ctx, int with_model)
+{
+    const size_t cks = ps_cksize(ck);
+    ps_log_reset();
+    PersistentAccess v = persistent_validate(st);
+    int consistent = ps_medium_consistent(ck, size);
+    if ((v == PERSISTENT_ACCESS_SUCCESS) != consistent || (v != PERSISTENT_ACCESS_SUCCESS && v != PERSISTENT_ACCESS_INVALID_DATA))
+        vh_fail("validate-verdict", key, "%s: validate=%d but medium is %s (stored %x, reference %x)", ctx, v,
+                consistent ? "consistent" : "inconsistent", ps_stored_sum(ck), ps_ref(ck, ps_medium + cks, size));
+    if (with_model) {
+        if (!consistent)
+            vh_fail("checksum-on-medium", key, "%s: stored %x, reference over the data image %x", ctx, ps_stored_sum(ck),
+                    ps_ref(ck, ps_medium + cks, size));
+        if (memcmp(ps_medium + cks, big_model, size) != 0) {
+            size_t d = 0;
+            while (ps_medium[cks + d] == big_model[d])
+                d++;
+            vh_fail("data-on-medium", key, "%s: first difference at data octet %zu", ctx, d);
+        }
+        unsigned char *dst = vh_arena(size);
+        PersistentAccess f = persistent_fetch(dst, st);
+        if (f != PERSISTENT_ACCESS_SUCCESS || memcmp(dst, big_model, size) != 0)
+            vh_fail("fetch", key, "%s: rc=%d", ctx, f);
+    }
+    if (ps_outside)
+        vh_fail("access-outside-region", key, "%s", ctx);
+    ps_outside = 0;
+    ncase++;
+}
+
+static void
+u_big(uint64_t idx, void *arg)
+{
+    (void)arg;
+    static const size_t sizes[] = { 255, 256, 257, 1000, 4096, 65534, 65535, 65536, 65537, 70000 };
+    const size_t size = sizes[idx % 10];
+    const int ck = (int)((idx / 10) % NCK);
+    const int top = (int)((idx / 30) & 1);
+    const size_t cks = ps_cksize(ck);
+    const uint32_t place = top ? (uint32_t)(0u - (uint32_t)(cks + size)) : 4093u;
+    const size_t auxes[] = { SIZE_MAX, 1, 7, 255, 256, 4096, 65535, 65536, size - 1, size, size + 1 };
+    ncase = 0;
+    for (size_t ai = 0; ai < sizeof auxes / sizeof auxes[0]; ai++) {
+        const int with_aux = auxes[ai] != SIZE_MAX;
+        const size_t auxsize = with_aux ? auxes[ai] : 0;
+        if (auxsize == 1 && size > 5000 && !vh_tier)
+            continue;
+        vh_arena_reset();
+        ps_medium_setup(place, cks + size);
+        ps_call_bound = (unsigned)(8 * (cks + size) + 64);
+        memset(ps_medium, 0x3C, cks + size);
+        unsigned char *aux = with_aux ? vh_arena(auxsize) : NULL;
+        PersistentStorage st;
+        ps_configure(&st, size, place, ck, aux, auxsize, with_aux);
+        char key[96], ctx[200];
+        snprintf(key, sizeof key, "checksum=%s aux=%s size=large", ps_ckname[ck], with_aux ? "yes" : "none");
+        VH_CASE4(size, place, ck, with_aux ? auxsize + 1 : 0);
+        snprintf(ctx, sizeof ctx, "size=%zu place=%u auxsize=%zu reset(ff)", size, place, auxsize);
+        ps_log_reset();
+        PersistentAccess rc = persistent_reset(&st, 0xFF);
+        if (rc != PERSISTENT_ACCESS_SUCCESS)
+            vh_fail("reset-rc", key, "%s: rc=%d", ctx, rc);
+        for (size_t i = 0; i < cks + size; i++)
+            if (ps_medium[i] != 0xFF) {
+                vh_fail("reset-fill", key, "%s: octet %zu of the region is %02x", ctx, i, ps_medium[i]);
+                break;
+            }
+        big_check(&st, ck, size, key, ctx, 0);
+        for (size_t i = 0; i < size; i++)
+            big_model[i] = (unsigned char)((i * 37u) ^ (i >> 8) ^ (i >> 16) ^ idx);
+        unsigned char *src = vh_arena_copy(big_model, size);
+        snprintf(ctx, sizeof ctx, "size=%zu place=%u auxsize=%zu full store", size, place, auxsize);
+        ps_log_reset();
+        rc = persistent_store(&st, src);
+        if (rc != PERSISTENT_ACCESS_SUCCESS)
+            vh_fail("store-rc", key, "%s: rc=%d", ctx, rc);
+        big_check(&st, ck, size, key, ctx, 1);
+        const size_t win[][2] = { { 0, 1 }, { size - 1, 1 }, { size / 2, size - size / 2 }, { 254, 3 }, { 0, size },
+                                  { size > 65540 ? 65534 : 100, size > 65540 ? 5 : 2 }, { size, 0 }, { 1, size - 1 } };
+        for (size_t w = 0; w < sizeof win / sizeof win[0]; w++) {
+            size_t off = win[w][0], n = win[w][1];
+            if (off > size || n > size - off)
+                continue;
+            for (size_t i = 0; i < n; i++)
+                big_tmp[i] = (unsigned char)(i * 11u + w * 29u + 5u);
+            unsigned char *psrc = vh_arena_copy(big_tmp, n);
+            snprintf(ctx, sizeof ctx, "size=%zu place=%u auxsize=%zu store_part(off=%zu,n=%zu)", size, place, auxsize, off, n);
+            ps_log_reset();
+            rc = persistent_store_part(&st, psrc, off, n);
+            if (rc != PERSISTENT_ACCESS_SUCCESS)
+                vh_fail("store-part-rc", key, "%s: rc=%d", ctx, rc);
+            memcpy(big_model + off, big_tmp, n);
+            big_check(&st, ck, size, key, ctx, 1);
+            unsigned char *dst = vh_arena(n);
+            ps_log_reset();
+            PersistentAccess f = persistent_fetch_part(dst, &st, off, n);
+            if (f != PERSISTENT_ACCESS_SUCCESS || memcmp(dst, big_model + off, n) != 0)
+                vh_fail("fetch-part", key, "%s: rc=%d", ctx, f);
+            if (ps_outside)
+                vh_fail("access-outside-region", key, "%s (fetch_part)", ctx);
+            ps_outside = 0;
+            /* keep the arena small */
+            vh_arena_reset();
+            unsigned char *nm = vh_arena(cks + size);
+            /* the medium block was released with the arena: its content is in big_model plus the checksum */
+            memcpy(nm + cks, big_model, size);
+            uint32_t sum = ps_ref(ck, big_model, size);
+            for (size_t i = 0; i < cks; i++)
+                nm[i] = (unsigned char)(sum >> (8 * i));
+            ps_medium = nm;
+            aux = with_aux ? vh_arena(auxsize) : NULL;
+            persistent_buffer(&st, aux, with_aux ? auxsize : 0);
+        }
+        /* out of range */
+        {
+            const size_t pairs[][2] = { { size, 1 }, { 0, size + 1 }, { size + 1, 0 }, { SIZE_MAX, 2 }, { 2, SIZE_MAX },
+                                        { (size_t)1 << 32, 1 }, { 1, (size_t)1 << 32 }, { 65536, SIZE_MAX - 65535 } };
+            unsigned char *buf = vh_arena(16);
+            for (size_t w = 0; w < sizeof pairs / sizeof pairs[0]; w++)
+                for (int wr = 0; wr < 2; wr++) {
+                    ps_log_reset();
+                    rc = wr ? persistent_store_part(&st, buf, pairs[w][0], pairs[w][1])
+                            : persistent_fetch_part(buf, &st, pairs[w][0], pairs[w][1]);
+                    snprintf(ctx, sizeof ctx, "size=%zu place=%u %s_part(off=%zx,n=%zx)", size, place, wr ? "store" : "fetch",
+                             pairs[w][0], pairs[w][1]);
+                    if (rc != PERSISTENT_ACCESS_ADDRESS_OUT_OF_RANGE)
+                        vh_fail("out-of-range-rc", key, "%s: rc=%d", ctx, rc);
+                    if (ps_nlog != 0)
+                        vh_fail("out-of-range-touches-medium", key, "%s: %zu medium accesses", ctx, ps_nlog);
+                    ps_outside = 0;
+                    ncase++;
+                }
+        }
+        /* alterations at positions around the 8- and 16-bit boundaries */
+        const size_t pos[] = { 0, cks - 1, cks, cks + 254, cks + 255, cks + 256, cks + 65534, cks + 65535, cks + 65536,
+                               cks + size - 1, cks + size / 2 };
+        for (size_t pi = 0; pi < sizeof pos / sizeof pos[0]; pi++) {
+            if (pos[pi] >= cks + size)
+                continue;
+            unsigned char old = ps_medium[pos[pi]];
+            ps_medium[pos[pi]] = (unsigned char)(old ^ (1u << (pi % 8)));
+            snprintf(ctx, sizeof ctx, "size=%zu place=%u auxsize=%zu octet %zu altered", size, place, auxsize, pos[pi]);
+            if (ps_medium_consistent(ck, size))
+                VH_COUNT("alteration the checksum cannot distinguish");
+            else
+                VH_COUNT("alteration detected by the checksum");
+            big_check(&st, ck, size, key, ctx, 0);
+            ps_medium[pos[pi]] = old;
+        }
+        vh_sig(0x10b00000ull ^ ((uint64_t)size << 32) ^ ((uint64_t)ck << 12) ^ (uint64_t)ai ^ ((uint64_t)top << 20));
+    }
+    *vh_ncases += ncase;
+    vh_countf("large data size %zu", size);
+}
+
 /* set-up histories: the same instance is placed and given checksum algorithms several times, in any order,
  * before it is used; what counts is the last placement and the last algorithm */
 static void
@@ -314,6 +473,11 @@ harness_run(void)
     }
     for (uint64_t i = 0; i < (vh_tier ? 4000u : 300u); i++)
         vh_unit("reconf", i, u_reconf, NULL);
+    for (uint64_t i = 0; i < 60; i++)
+        if (vh_tier || i % 7 == 0 || i % 10 >= 6)
+            vh_unit("big", i, u_big, NULL);
+    vh_require("large data size 65536");
+    vh_require("large data size 70000");
     static const char *req[] = { "set-up history changing the checksum width after the last placement",
                                  "set-up history narrowing the checksum after the last placement", "reset checked", "full store checked", "partial store + fetch checked",
                                  "out-of-range part access", "out-of-range part access whose offset+length wraps",
